@@ -262,10 +262,15 @@ F = {
 }
 F.update(json.load(open(os.path.join(HERE, 'docs_extra.json'))) if os.path.exists(os.path.join(HERE, 'docs_extra.json')) else {})
 
+UPSTREAM = {'generalname-terminator-not-reset': 'd1f7489 "fix: reset the terminating-NUL decision for every subjectAltName entry"',
+            'pbkdf2-long-password-hmac-overflow': 'ca0234f "fix: PBKDF2 must hash passwords longer than the HMAC-SHA1 block size instead of overflowing the HMAC pad"'}
+
 for name, f in F.items():
     v = V.get(name, {})
+    patch = os.path.exists(os.path.join(HERE, name + '.patch'))
     md = ['# %s' % f['title'], '',
-          '* **Finding id / patch:** `%s` (`findings/%s.patch`)' % (name, name),
+          ('* **Finding id / patch:** `%s` (`findings/%s.patch`)' % (name, name)) if patch else
+          ('* **Finding id:** `%s` - **already fixed in /repo HEAD** by commit %s while this campaign was running (found independently here; no patch needed, the reproducer now passes on /repo and is kept as a regression input)' % (name, UPSTREAM.get(name, '?'))),
           '* **Where (in /repo HEAD):** %s' % f['where'],
           '* **Failure signature:** on the fully patched tree minus this fix: `%s`; on unpatched /repo the same input gives `%s` (an earlier defect may fire first there)' % (v.get('sig_minus', '?'), v.get('sig_repo', '?')),
           '* **Reproducer:** `corpus/C09/%s/regress/%s` (%s bytes) - `bin/check C09 --replay corpus/C09/%s/regress/%s`' % (v.get('target', '?'), name, v.get('size', '?'), v.get('target', '?'), name), '',
